@@ -43,6 +43,8 @@ def _finding_keys(root: str, rule_names: list[str]):
             results.append(r)
         except AnalysisError as e:
             errors.append(f"{n}: {e}")
+        except Exception as e:  # a checker bug on a mutated tree is an analysis error of that rule, not a crash of the self-test
+            errors.append(f"{n}: internal error {type(e).__name__}: {e}")
         else:
             ok.add(n)
     from .registry import apply_cover, apply_demote
